@@ -250,6 +250,12 @@ def oracle_C10(tier):
                                               '\\end{a}\\end{itemize}', '\\item \\zq', '% %', '\\']
     for _ in range(npay):
         payloads.append(''.join(rng.choice(gen.HOSTILE_COMMENT) for _ in range(rng.randint(1, 5))))
+    # a comment runs to the end of its LINE: characters that other notions of
+    # line end / white space cover (form feed, vertical tab, NEL, U+2028, ...)
+    # do not end it; CR does (it is an end-of-line character) and is left out
+    for ch in gen.ODD_CHARS:
+        if ch != '\r':
+            payloads += ['x' + ch + '}', ch + '\\begin{zq}[', ch + '{']
     cases = []
     for ctx in CONTEXTS:
         for eol in ('\n', ''):
